@@ -260,6 +260,21 @@ func TestCheck(t *testing.T) {
 		}
 	}
 
+	// Growth by pages that are never written: free-list leaves allocated and freed inside the transaction, the file
+	// extended by one zero page at commit; followed by a transaction that uses one of them, and by a restart.
+	for _, ps := range pageSizes {
+		if ps > 4096 {
+			continue
+		}
+		for _, s := range []uint32{3, 255, 257} {
+			for _, fin := range []string{"DELETE", "TRUNCATE", "PERSIST"} {
+				t1 := pager.RTx{Mods: []uint32{2}, NewSize: s + 3, FreeLeaves: true, Final: fin, Outcome: "commit"}
+				t2 := pager.RTx{Mods: []uint32{s + 1}, Final: fin, Outcome: "commit"}
+				cases = append(cases, prog.Case{PageSize: ps, Start: s, Ops: []prog.Op{{Kind: "rtx", R: &t1}, {Kind: "rtx", R: &t2}, {Kind: "restart"}}})
+			}
+		}
+	}
+
 	// LZ4 on: a slice of the single programs.
 	for i := 0; i < nSingles; i += 37 {
 		c := cases[i]
